@@ -181,6 +181,10 @@ struct Invocation {
     extension: Option<&'static str>,
     list: bool,
     from_sub_dir: bool,
+    /// start directory relative to the repository root (overrides `from_sub_dir`)
+    start_in: Option<&'static str>,
+    /// free text describing what surrounds the repository (nested-repository scenarios)
+    note: Option<String>,
 }
 
 fn diff_text(files: &[FileSpec], spec: &DiffSpec) -> String {
@@ -286,7 +290,11 @@ fn run(root: &Path, files: &[FileSpec], inv: &Invocation) -> (Vec<String>, Obser
     }
     let mut cmd = Command::new(env!("CARGO_BIN_EXE_blockwatch"));
     cmd.args(&args)
-        .current_dir(if inv.from_sub_dir { root.join("sub") } else { root.to_path_buf() })
+        .current_dir(match inv.start_in {
+            Some(d) => root.join(d),
+            None if inv.from_sub_dir => root.join("sub"),
+            None => root.to_path_buf(),
+        })
         .env_remove("BLOCKWATCH_TERMINAL_MODE")
         .stdin(Stdio::piped())
         .stdout(Stdio::piped())
@@ -315,7 +323,8 @@ fn run(root: &Path, files: &[FileSpec], inv: &Invocation) -> (Vec<String>, Obser
 fn describe(files: &[FileSpec], inv: &Invocation, args: &[String], with_broken: bool) -> Value {
     json!({
         "argv": args,
-        "started_in": if inv.from_sub_dir { "<root>/sub" } else { "<root>" },
+        "started_in": match inv.start_in { Some(d) => format!("<root>/{d}"), None if inv.from_sub_dir => "<root>/sub".to_string(), None => "<root>".to_string() },
+        "surroundings": inv.note,
         "stdin": match &inv.diff { None => json!("none; BLOCKWATCH_TERMINAL_MODE=1"), Some(d) => json!({"diff_name": d.name, "diff_text": diff_text(files, d)}) },
         "repository": {
             "directories_only": [".git/", "nested/.hg/", "sub/deeper/"],
@@ -442,7 +451,7 @@ fn cex_M1() {
     create_repository(&repo_b, &files, true, false);
     create_repository(&repo_broken, &files, false, true);
 
-    let plain = Invocation { diff: None, globs: vec![], ignore: vec![], disable: vec![], enable: vec![], extension: None, list: false, from_sub_dir: false };
+    let plain = Invocation { diff: None, globs: vec![], ignore: vec![], disable: vec![], enable: vec![], extension: None, list: false, from_sub_dir: false, start_in: None, note: None };
     let mut invocations: Vec<Invocation> = Vec::new();
 
     // ---- (1) terminal mode: no args / positional globs / --ignore / -d -e -E, from the root and from a sub-directory ----
@@ -569,9 +578,61 @@ fn cex_M1() {
         }
     }
 
+    // ---- runs STARTED INSIDE a nested repository (C15: the root is the NEAREST ancestor - the start
+    //      directory included - that has a `.git` or `.hg` directory) ----
+    // (a) inner/.git inside an outer tree whose root has .hg (and no .git); (b) the mirror image.
+    // A same-named file exists in both trees, clean in one and violating in the other: only the
+    // inner repository's files are examined, with paths relative to inner/.
+    for (scenario, outer_marker, inner_marker) in [("a", ".hg", ".git"), ("b", ".git", ".hg")] {
+        for inner_x_violates in [false, true] {
+            let simple = |path: &'static str, name: &'static str, sorted: bool| FileSpec {
+                path,
+                text: py_block(name, " keep-sorted", if sorted { &["a", "b"] } else { &["b", "a"] }),
+                grammar: Some(""),
+                hidden: false,
+                blocks: vec![BlockSpec { name, tag_line: 1, tag_column: 3, end_line: 4, diags: if sorted { vec![] } else { vec![ks(3, 1)] } }],
+            };
+            let inner_files = vec![simple("src/x.py", "inner_x", !inner_x_violates), simple("only_inner.py", "oi", inner_x_violates), simple("src/deep/y.py", "iy", true)];
+            let outer_files = vec![simple("src/x.py", "outer_x", inner_x_violates), simple("top.py", "ot", false), simple("only_inner.py", "outer_oi", !inner_x_violates)];
+            let outer = base.join(format!("nested_{scenario}_{inner_x_violates}"));
+            std::fs::create_dir_all(outer.join(outer_marker)).unwrap();
+            for f in &outer_files {
+                let p = outer.join(f.path);
+                std::fs::create_dir_all(p.parent().unwrap()).unwrap();
+                std::fs::write(&p, &f.text).unwrap();
+            }
+            let inner = outer.join("inner");
+            std::fs::create_dir_all(inner.join(inner_marker)).unwrap();
+            for f in &inner_files {
+                let p = inner.join(f.path);
+                std::fs::create_dir_all(p.parent().unwrap()).unwrap();
+                std::fs::write(&p, &f.text).unwrap();
+            }
+            let note = Some(format!(
+                "<root> is `inner/` (has a {inner_marker} directory) inside an outer tree whose top has a {outer_marker} directory and these files: {}",
+                outer_files.iter().map(|f| format!("{} = {:?}", f.path, f.text)).collect::<Vec<_>>().join("; ")
+            ));
+            let x_diff = DiffSpec { name: "b/src/x.py", files: vec![("src/x.py", vec![3])] };
+            for start_in in [None, Some("src"), Some("src/deep")] {
+                let nested_plain = Invocation { start_in, note: note.clone(), ..plain.clone() };
+                for inv in [
+                    nested_plain.clone(),
+                    Invocation { globs: vec![G_SRC], ..nested_plain.clone() },
+                    Invocation { list: true, ..nested_plain.clone() },
+                    Invocation { globs: vec![G_SRC], list: true, ..nested_plain.clone() },
+                    Invocation { diff: Some(x_diff.clone()), ..nested_plain.clone() },
+                    Invocation { diff: Some(x_diff.clone()), list: true, ..nested_plain.clone() },
+                    Invocation { diff: Some(x_diff.clone()), globs: vec![Glob { text: "only_inner.py", matches: |p| p == "only_inner.py" }], ..nested_plain.clone() },
+                ] {
+                    check(&inner, &inner_files, &inv, false, &mut cases);
+                }
+            }
+        }
+    }
+
     cex_none(
         "M1",
         cases,
-        "real binary in throw-away repositories (14 files: sorted / unsorted / warning-only keep-sorted blocks in python and rust, two rules on one block, sub-directories, a name without a grammar holding unbalanced tags, directories b/ and b/b/, a file only an ignore glob matches, x.cxx, a hidden file, a nested directory with its own .hg, a sub-directory to start from): terminal mode x 8 glob sets x 4 ignore sets x {no flag, -d keep-sorted, -e line-count, -E cxx=cpp, list}; 12 diffs x 3 glob sets x 2 ignore sets (+ list); flag rejections; start directory root / sub-directory alternating; two repositories with opposite file creation order alternating; every 4th invocation 3 + 1 times; a repository with an unbalanced file",
+        "real binary in throw-away repositories (14 files: sorted / unsorted / warning-only keep-sorted blocks in python and rust, two rules on one block, sub-directories, a name without a grammar holding unbalanced tags, directories b/ and b/b/, a file only an ignore glob matches, x.cxx, a hidden file, a nested directory with its own .hg, a sub-directory to start from): terminal mode x 8 glob sets x 4 ignore sets x {no flag, -d keep-sorted, -e line-count, -E cxx=cpp, list}; 12 diffs x 3 glob sets x 2 ignore sets (+ list); flag rejections; start directory root / sub-directory alternating; two repositories with opposite file creation order alternating; every 4th invocation 3 + 1 times; a repository with an unbalanced file; runs started inside a nested repository (inner .git under an outer .hg tree and the mirror image; start = inner/, inner/src/, inner/src/deep/; a same-named file clean in one tree and violating in the other; scan, list and diff naming b/src/x.py)",
     );
 }
